@@ -74,6 +74,7 @@ func offsetin(sub, whole []byte) int { return 0 }
 
 // elems / entries: frame designators for modifies clauses
 func elems[T any](s []T) int               { return len(s) }
+func chanstate(ch any) int                 { return 0 }
 func entries[K comparable, V any](m map[K]V) int { return len(m) }
 func forall(lo, hi int, p func(i int) bool) bool {
 	for i := lo; i < hi; i++ {
@@ -393,7 +394,8 @@ func boinv(b *TimeoutBooster) bool { return b != nil && past(b.lastBoost) }
 // gcfg: the connection's configuration is usable.
 func gcfg(g *GoBackNConn) bool {
 	return g != nil && g.cfg != nil && g.log != nil && tminv(g.timeoutManager) &&
-		!isnil(g.cfg.sendToStream) && !isnil(g.cfg.recvFromStream) && !isnil(g.ctx)
+		!isnil(g.cfg.sendToStream) && !isnil(g.cfg.recvFromStream) && !isnil(g.ctx) &&
+		!isnil(g.quit) && !isnil(g.remoteClosed) && !isnil(g.recvDataChan) && !isnil(g.sendDataChan)
 }
 
 // ginv: invariant of a connection whose window has been fixed: the sequence
@@ -401,12 +403,26 @@ func gcfg(g *GoBackNConn) bool {
 // the send queue live inside it.
 func ginv(g *GoBackNConn) bool {
 	return gcfg(g) && g.cfg.n >= 1 && g.cfg.n <= 254 && g.cfg.s == g.cfg.n+1 && g.recvSeq < g.cfg.s &&
-		qinv(g.sendQueue) && g.sendQueue.cfg.s == g.cfg.s && g.sendQueue.timeoutManager == g.timeoutManager
+		qinv(g.sendQueue) && g.sendQueue.cfg.s == g.cfg.s && g.sendQueue.timeoutManager == g.timeoutManager &&
+		g.quit != g.remoteClosed && g.quit != g.sendQueue.quit && g.remoteClosed != g.sendQueue.quit
 }
 
-// gstarted: the tickers created by start exist.
+// tkinv: a ticker that has not been stopped: its clock goroutine's quit channel is open.
+func tkinv(t *IntervalAwareForceTicker) bool {
+	return t != nil && t.ticker != nil && !isnil(t.quit) && !closed(t.quit)
+}
+
+// gstarted: the tickers created by start exist and run.
 func gstarted(g *GoBackNConn) bool {
-	return g.pingTicker != nil && g.pongTicker != nil && g.resendTicker != nil
+	return tkinv(g.pingTicker) && tkinv(g.pongTicker) && g.pingTicker != g.pongTicker &&
+		g.pingTicker.quit != g.pongTicker.quit && g.resendTicker != nil &&
+		g.pingTicker.quit != g.quit && g.pingTicker.quit != g.remoteClosed && g.pingTicker.quit != g.sendQueue.quit &&
+		g.pongTicker.quit != g.quit && g.pongTicker.quit != g.remoteClosed && g.pongTicker.quit != g.sendQueue.quit
+}
+
+// wireGrew2: exactly the two bytes b0 b1 were handed to the transport since the old state.
+func wireGrew2(oldLen int, b0, b1 uint8) bool {
+	return wirelen() == oldLen+2 && wirebyte(oldLen) == b0 && wirebyte(oldLen+1) == b1
 }
 
 //@ func newConfig(sendFunc sendBytesFunc, recvFunc recvBytesFunc, n uint8) (c *config)
@@ -424,7 +440,7 @@ func gstarted(g *GoBackNConn) bool {
 //@   requires cfg != nil && cfg.s >= 2 && !isnil(cfg.sendPkt) && tminv(timeoutManager)
 //@   modifies cfg.log
 //@   ensures fresh(q) && qinv(q) && q.cfg == cfg && q.sequenceBase == 0 && q.sequenceTop == 0 && q.timeoutManager == timeoutManager
-//@   ensures cfg.s == old(cfg.s) && !closed(q.quit) && q.syncer.quit == q.quit
+//@   ensures cfg.s == old(cfg.s) && !closed(q.quit) && q.syncer.quit == q.quit && fresh(q.quit)
 
 //@ func (g *GoBackNConn) setN(n uint8)
 //@   props C07 C09 C10
@@ -432,11 +448,12 @@ func gstarted(g *GoBackNConn) bool {
 //@   modifies g.cfg.n, g.cfg.s, g.recvDataChan, g.sendQueue
 //@   ensures gcfg(g) && g.cfg.n == n && g.cfg.s == n+1 && qinv(g.sendQueue) && g.sendQueue.cfg.s == n+1
 //@   ensures g.sendQueue.sequenceBase == 0 && g.sendQueue.sequenceTop == 0 && g.sendQueue.timeoutManager == g.timeoutManager
-//@   ensures cap(g.recvDataChan) == int(n)
-//@   ensures fresh(g.sendQueue)
+//@   ensures cap(g.recvDataChan) == int(n) && !isnil(g.recvDataChan)
+//@   ensures fresh(g.sendQueue) && fresh(g.sendQueue.quit) && !closed(g.sendQueue.quit)
 
 //@ func (g *GoBackNConn) sendPacket(ctx context.Context, msg Message, isResend bool) (err error)
 //@   props C01 C07
+//@   inline
 //@   requires gcfg(g) && isPacket(msg)
 //@   modifies g.timeoutManager.latestSentSYNTime, entries(g.timeoutManager.sentTimes), g.timeoutManager.handshakeBooster.boostCount,
 //@            g.timeoutManager.handshakeBooster.lastBoost, g.timeoutManager.resendBooster.boostCount, g.timeoutManager.resendBooster.lastBoost
@@ -481,6 +498,60 @@ func gstarted(g *GoBackNConn) bool {
 //@   at "synack, err := new(PacketSYNACK).Serialize()" assert @C10 respSYN != nil && respSYN.N == g.cfg.n
 //@   ensures ginv(g) && g.cfg.n == old(g.cfg.n)
 //@   ensures @C10 implies(err == nil && !closed(g.quit) && wirelen() > old(wirelen()), wirebyte(wirelen()-1) == SYNACK || wirebyte(wirelen()-2) == SYN)
+
+//@ func (t *IntervalAwareForceTicker) Reset()
+//@   props C07 C18
+//@   requires tkinv(t)
+//@   modifies t.interval, t.ticker, t.quit, t.lastTimedTick, chanstate(t.quit)
+//@   ensures tkinv(t) && fresh(t.ticker) && fresh(t.quit)
+
+//@ func (t *IntervalAwareForceTicker) ResetWithInterval(newInterval time.Duration)
+//@   props C07 C18
+//@   requires tkinv(t)
+//@   modifies t.interval, t.ticker, t.quit, t.lastTimedTick, chanstate(t.quit)
+//@   ensures tkinv(t) && fresh(t.ticker) && fresh(t.quit)
+
+//@ func (t *IntervalAwareForceTicker) Pause()
+//@   props C07 C18
+//@   requires t != nil
+//@   modifies t.isActive
+//@   ensures t.isActive == 0
+
+//@ func (t *IntervalAwareForceTicker) Resume()
+//@   props C07 C18
+//@   requires t != nil
+//@   modifies t.isActive
+//@   ensures t.isActive == 1
+
+//@ func (t *IntervalAwareForceTicker) IsActive() (r bool)
+//@   props C07 C18
+//@   requires t != nil
+//@   ensures r == (t.isActive == 1)
+
+//@ func (t *IntervalAwareForceTicker) Stop()
+//@   props C07 C12 C18
+//@   requires tkinv(t)
+//@   modifies t.isActive, chanstate(t.quit)
+//@   ensures closed(t.quit) && t.isActive == 0
+
+//@ func (g *GoBackNConn) receivePacketsForever() (err error)
+//@   props C01 C07 C09
+//@   requires ginv(g) && gstarted(g) && !closed(g.remoteClosed)
+//@   noframe
+//@   loop 0 invariant ginv(g)
+//@   loop 0 invariant gstarted(g)
+//@   loop 0 invariant !closed(g.remoteClosed)
+//@   loop 0 invariant nsent() >= old(nsent()) && wirelen() >= old(wirelen())
+//@   loop 0 step @C01 g.recvSeq == old(g.recvSeq) || int(g.recvSeq) == (int(old(g.recvSeq))+1) % int(g.cfg.s)
+//@   loop 0 step @C01 g.cfg.s == old(g.cfg.s) && g.cfg.n == old(g.cfg.n) && g.sendQueue == old(g.sendQueue)
+//@   loop 0 step @C01 nsenton(g.recvDataChan) == old(nsenton(g.recvDataChan)) ||
+//@          (nsenton(g.recvDataChan) == old(nsenton(g.recvDataChan))+1 && g.recvSeq != old(g.recvSeq))
+//@   loop 0 step @C01 forall(old(nsent()), nsent(), func(i int) bool {
+//@          return implies(senton(i, g.recvDataChan),
+//@              sentval[*PacketData](i) != nil && sentval[*PacketData](i).Seq == old(g.recvSeq) && !sentval[*PacketData](i).IsPing) })
+//@   loop 0 step @C01 implies(g.recvSeq != old(g.recvSeq), wireGrew2(old(wirelen()), ACK, old(g.recvSeq)))
+//@   loop 0 step @C01 implies(g.recvSeq == old(g.recvSeq), wirelen() == old(wirelen()) || wireGrew2(old(wirelen()), NACK, g.recvSeq))
+//@   loop 0 step @C01,C09 g.sendQueue.sequenceTop == old(g.sendQueue.sequenceTop)
 
 // ---- chunking (C14) -------------------------------------------------------------
 
